@@ -54,7 +54,7 @@ fn is_ext(path: &str) -> bool {
 
 /// values across the field's physical range; `canon` keeps to the range in which the statement
 /// promises read-back of the very value (angles in their canonical interval, positive period)
-fn gen_value(r: &mut Rng, path: &str, canon: bool) -> f64 {
+fn gen_value(r: &mut Rng, path: &str, canon: bool, base: &SPDC) -> f64 {
   let d4 = |r: &mut Rng, lo: f64, hi: f64| {
     let v = r.range(lo, hi);
     match r.below(3) {
@@ -90,10 +90,26 @@ fn gen_value(r: &mut Rng, path: &str, canon: bool) -> f64 {
         *r.pick(&[-400., -90., 360., 400., 720., -0.0])
       }
     }
-    ("pump.frequency_thz", _) => d4(r, 250., 800.),
-    (_, "frequency_thz") => d4(r, 100., 400.),
-    ("pump.wavelength_nm", _) => d4(r, 350., 1200.),
-    (_, "wavelength_nm") => d4(r, 700., 3000.),
+    // wavelengths / frequencies relative to the base so that the swept setup stays a down-conversion
+    // (pump wavelength never above, signal and idler never below their base values)
+    ("pump.frequency_thz", _) => {
+      let nu = 299_792.458 / (base.pump.vacuum_wavelength().value_unsafe * 1e9);
+      d4(r, nu, 1.3 * nu)
+    }
+    (_, "frequency_thz") => {
+      let b: &Beam = if path.starts_with("signal") { &base.signal } else { &base.idler };
+      let nu = 299_792.458 / (b.vacuum_wavelength().value_unsafe * 1e9);
+      d4(r, 0.77 * nu, nu)
+    }
+    ("pump.wavelength_nm", _) => {
+      let l = base.pump.vacuum_wavelength().value_unsafe * 1e9;
+      d4(r, 0.75 * l, l)
+    }
+    (_, "wavelength_nm") => {
+      let b: &Beam = if path.starts_with("signal") { &base.signal } else { &base.idler };
+      let l = b.vacuum_wavelength().value_unsafe * 1e9;
+      d4(r, l, 1.3 * l)
+    }
     (_, "waist_um") => d4(r, 5., 1000.),
     (_, "waist_position_um") => d4(r, -5000., 5000.),
     (_, "average_power_mw") => d4(r, 0.01, 1000.),
@@ -487,8 +503,8 @@ pub fn run(ctx: &mut Ctx) {
         while same_field(p1, p2) {
           p2 = *ctx.rng.pick(&PATHS);
         }
-        let v1 = gen_value(&mut ctx.rng, p1, true);
-        let v2 = gen_value(&mut ctx.rng, p2, true);
+        let v1 = gen_value(&mut ctx.rng, p1, true, base);
+        let v2 = gen_value(&mut ctx.rng, p2, true, base);
         // order (p1,p2) and (p2,p1)
         if ctx.rng.coin() {
           frame_case(ctx, name, base, p1, v1, p2, v2);
@@ -500,10 +516,10 @@ pub fn run(ctx: &mut Ctx) {
       }
       // K only: non-canonical values (angles outside their interval, negative period / external angle),
       // and pairs writing the same field
-      let v1 = gen_value(&mut ctx.rng, p1, false);
+      let v1 = gen_value(&mut ctx.rng, p1, false, base);
       let p2 = *ctx.rng.pick(&PATHS);
       let canon2 = ctx.rng.coin();
-      let v2 = gen_value(&mut ctx.rng, p2, canon2);
+      let v2 = gen_value(&mut ctx.rng, p2, canon2, base);
       k_point(ctx, base, p1, v1, p2, v2);
     }
   }
@@ -512,8 +528,8 @@ pub fn run(ctx: &mut Ctx) {
     let (name, base) = ctx.rng.pick(&bases).clone();
     let p1 = *ctx.rng.pick(&PATHS);
     let p2 = *ctx.rng.pick(&PATHS);
-    let v1 = gen_value(&mut ctx.rng, p1, true);
-    let v2 = gen_value(&mut ctx.rng, p2, true);
+    let v1 = gen_value(&mut ctx.rng, p1, true, &base);
+    let v2 = gen_value(&mut ctx.rng, p2, true, &base);
     if !same_field(p1, p2) {
       frame_case(ctx, &name, &base, p1, v1, p2, v2);
     }
@@ -540,8 +556,8 @@ pub fn run(ctx: &mut Ctx) {
     while same_field(p1, p2) {
       p2 = *ctx.rng.pick(&direct);
     }
-    let (a1, b1) = (gen_value(&mut ctx.rng, p1, true), gen_value(&mut ctx.rng, p1, true));
-    let (a2, b2) = (gen_value(&mut ctx.rng, p2, true), gen_value(&mut ctx.rng, p2, true));
+    let (a1, b1) = (gen_value(&mut ctx.rng, p1, true, &base), gen_value(&mut ctx.rng, p1, true, &base));
+    let (a2, b2) = (gen_value(&mut ctx.rng, p2, true, &base), gen_value(&mut ctx.rng, p2, true, &base));
     let steps = Steps2D((a1, b1, nx), (a2, b2, ny));
     let det = format!("base={} p1={} p2={} x=({:?},{:?},{}) y=({:?},{:?},{})", name, p1, p2, a1, b1, nx, a2, b2, ny);
     let got = guard(|| SPDCIter::try_new(base.clone(), p1, p2, steps).map(|it| it.into_iter().collect::<Vec<SPDC>>()));
